@@ -768,6 +768,21 @@ class Processor:
             if isinstance(nc.parent, list) and isinstance(nc.parentref, int)
             else -1)
 
+        # Refuse to destroy the document before deleting anything at all
+        for delete_nc in unique_nodes:
+            if (delete_nc.parent is None
+                and not isinstance(delete_nc.node, NodeCoords)
+                and not (isinstance(delete_nc.node, list)
+                         and len(delete_nc.node) > 0
+                         and isinstance(delete_nc.node[0], NodeCoords))
+            ):
+                raise NoDocumentYAMLPathException(
+                    "Refusing to delete the entire document!  Ensure the"
+                    " source document is YAML, JSON, or compatible and the"
+                    " target nodes do not include the document root.",
+                    str(delete_nc.path)
+                )
+
         # pylint: disable=locally-disabled,too-many-nested-blocks
         for delete_nc in reversed(unique_nodes):
             node = delete_nc.node
